@@ -362,60 +362,66 @@ def writeback(ctx, m):
 
 
 # ---------------------------------------------------------------------------------- level walk
+def is_touch(m, e, side):
+    """e reads the touch price of `side` of the receiver book: bid_ask().0/.1 or the side's own best_price()"""
+    while e[0] in ("conv", "cast"):
+        e = e[1] if e[0] == "conv" else e[2]
+    if e[0] == "field" and e[2] == ("0" if side == "Bid" else "1") and e[1][0] == "call" and e[1][4] == "bid_ask" and e[1][2] and e[1][2][0] == ("param", 1, "self"):
+        return True
+    want = m.f_bid if side == "Bid" else m.f_ask
+    return e[0] == "call" and e[4] == "best_price" and (side + "Side") in e[1] and e[2] and fld(e[2][0], want) and field_chain(e[2][0])[0] == ("param", 1, "self")
+
+
 def level_walk(ctx, m):
+    from analysis.beta import from_fn_element
+    from analysis.iterelem import loop_item, rewrite, I
     for name, side, wrap in (("bid_levels", "Bid", "wrapping_sub"), ("ask_levels", "Ask", "wrapping_add")):
         f = m.book_fn(name)
-        q = m.q(f)
-        cl = q.closures()
-        ff = q.calls("from_fn")
-        if len(cl) != 1 or len(ff) != 1:
-            ctx.bad("level-walk", name + "|shape", ctx.loc(f), "%s is not a single from_fn over one closure" % name)
+        q = m.q(f)       # unit view: a shared generic `levels_from_touch(side, |offset| ..)` helper is spliced in
+        for (cq, _o, _n, _b) in q.closures():
+            ctx.analysed_fns.add(cq.fn.path)
+        # element i of the returned array: `from_fn(|i| ..)`, or an array filled by `for (i, slot) in arr.iter_mut().enumerate()`
+        r = from_fn_element(m.w, q.ret(), I)
+        if r is None:
+            nxs = [c for c in q.calls("next") if q.cfg.in_loop(c.b)]
+            if len(nxs) == 1:
+                sym, bounds = loop_item(q, nxs[0])
+                ret = q.ret()
+                if sym is not None and ret[0] == "local" and not [b_ for b_ in bounds if b_[0] == "take"] and q.cfg.loop_runs_to_completion(list(q.body.loop_heads())[0])[0]:
+                    ws = [w for w in q.writes() if rewrite(w.addr, nxs[0], sym) == ("index", ret, I) and not [a for a in w.guards if not (a[0] == "variant" and a[2] == ("Some",))]]
+                    if len(ws) == 1:
+                        r = rewrite(ws[0].val, nxs[0], sym)
+        if r is None:
+            ctx.bad("level-walk", name + "|shape", ctx.loc(f), "%s is neither `from_fn(|i| ..)` nor an array filled position by position over all levels" % name)
             continue
-        cq, ops, names, _b = cl[0]
-        ctx.analysed_fns.add(cq.fn.path)
-        r = cq.ret()
-
-        def cap(e):
-            """resolve a closure-capture read to the creator's operand"""
-            root, chain = field_chain(e)
-            if root[0] == "param" and root[1] == 1 and chain:
-                nm = chain[0]
-                for i, n in enumerate(names):
-                    if n == nm or n.lstrip("*") == nm.lstrip("*"):
-                        return ops[i], chain[1:]
-            return None, None
         ok = r[0] == "call" and r[4] == "vol_and_orders_at_price" and (side + "Side") in r[1]
         recv_ok = price_ok = False
         if ok:
-            base, rest = cap(r[2][0])
             want = m.f_bid if side == "Bid" else m.f_ask
-            recv_ok = base is not None and base[0] == "param" and base[1] == 1 and rest[-1:] == [want]
+            recv_ok = fld(r[2][0], want) and field_chain(r[2][0])[0] == ("param", 1, "self")
             pe = r[2][1]
             if pe[0] == "call" and pe[4] == wrap and len(pe[2]) == 2:
-                start, rest0 = cap(pe[2][0])
                 step = bin_of(pe[2][1])
                 idx_ok = tick_ok = False
                 if step and step[0] == "Mul":
-                    for a, b in ((step[1], step[2]), (step[2], step[1])):
-                        if a[0] == "conv" and a[1][0] == "param" and a[1][1] == 2:
+                    for a_, b_ in ((step[1], step[2]), (step[2], step[1])):
+                        x = a_
+                        while x[0] in ("conv", "cast"):
+                            x = x[1] if x[0] == "conv" else x[2]
+                        if x == I:
                             idx_ok = True
-                            tb, trest = cap(b)
-                            tick_ok = tb is not None and tb[0] == "param" and trest[-1:] == [m.f_tick]
-                start_ok = start is not None and start[0] == "field" and start[2] == ("0" if side == "Bid" else "1") \
-                    and start[1][0] == "call" and start[1][4] == "bid_ask"
-                price_ok = idx_ok and tick_ok and start_ok
+                            tick_ok = fld(b_, m.f_tick) and field_chain(b_)[0] == ("param", 1, "self")
+                price_ok = idx_ok and tick_ok and is_touch(m, pe[2][0], side)
         ctx.check(ok and recv_ok and price_ok, "level-walk", name, ctx.loc(f),
-                  "%s[i] = %s side level query at bid_ask().%s %s i * tick_size" % (name, side, "0" if side == "Bid" else "1", "-" if side == "Bid" else "+"),
-                  "%s[i] is %s (expected the %s side queried at touch %s i*tick)" % (name, render(r), side, "-" if side == "Bid" else "+"))
+                  "%s[i] = %s side level query at the %s touch %s i * tick_size" % (name, side, side.lower(), "-" if side == "Bid" else "+"),
+                  "%s[i] is %s (expected the %s side queried at touch %s i*tick)" % (name, render(r)[:200], side, "-" if side == "Bid" else "+"))
     # mid price = mean of the two touch prices of this book, computed in floating point
     f = m.book_fn("mid_price")
     r = m.q(f).ret()
     from analysis.origin import const_float
 
     def touch(e, i):
-        while e[0] in ("conv", "cast"):
-            e = e[1] if e[0] == "conv" else e[2]
-        return e[0] == "field" and e[2] == str(i) and e[1][0] == "call" and e[1][4] == "bid_ask" and e[1][2][0] == ("param", 1, "self")
+        return is_touch(m, e, "Bid" if i == 0 else "Ask")
     okm = False
     if r[0] == "bin" and r[1] in ("Mul", "Div"):
         for a, b in ((r[2], r[3]), (r[3], r[2])):
@@ -446,6 +452,18 @@ def views(ctx, m):
 
         def call_of(x, nm):
             return x[0] == "call" and x[4] == nm
+        Side_ = "Bid" if side == "bid" else "Ask"
+
+        def side_call(x, op):
+            return x[0] == "call" and x[4] == op and (Side_ + "Side") in x[1]
+        if field in ("bid_price", "ask_price") and is_touch(m, e, Side_):
+            return True
+        if field in ("bid_vol", "ask_vol") and side_call(e, "vol"):
+            return True
+        if field in ("bid_touch_vol", "ask_touch_vol") and e[0] == "field" and e[2] == "0" and side_call(e[1], "best_vol_and_orders"):
+            return True
+        if field in ("bid_touch_orders", "ask_touch_orders") and e[0] == "field" and e[2] == "1" and side_call(e[1], "best_vol_and_orders"):
+            return True
         if field in ("bid_price", "ask_price"):
             return e[0] == "field" and e[2] == ("0" if side == "bid" else "1") and call_of(e[1], "bid_ask")
         if field in ("bid_vol", "ask_vol"):
@@ -461,7 +479,8 @@ def views(ctx, m):
     def same_book(e, recv):
         calls = [x for x in walk(e) if x[0] == "call" and x[4] in ("bid_ask", "bid_vol", "ask_vol", "bid_levels", "ask_levels",
                                                                   "bid_best_vol_and_orders", "ask_best_vol_and_orders")]
-        return all(same(c[2][0], recv) for c in calls) and calls
+        direct = [x for x in walk(e) if x[0] == "call" and x[4] in ("best_price", "vol", "best_vol_and_orders") and "Side" in x[1]]
+        return (all(same(c[2][0], recv) for c in calls) and all(field_chain(c[2][0])[0] == recv for c in direct)) and (calls or direct)
 
     for owner, fname in (("OrderBook", "level_1_data"), ("OrderBook", "level_2_data")):
         f = ctx.prog.method(owner, fname, crate="bourse_book")
@@ -578,6 +597,13 @@ def discharge(m, q, p, in_closure):
         return "MAX - x cannot underflow on an unsigned value"
     if p.kind == "unwrap" and e and e[0] == "call" and e[4] == "try_from" and in_closure and e[2] and e[2][0][0] == "param" and e[2][0][1] == 2:
         return "u32::try_from(i) with i the from_fn index < LEVELS (assumption LEVELS < 2^32)"
+
+    def enum_index(x):
+        return any(y[0] == "call" and y[4] == "next" and "Enumerate" in y[1] for y in walk(x))
+    if p.kind == "unwrap" and e and e[0] == "call" and e[4] == "try_from" and e[2] and enum_index(e[2][0]):
+        return "u32::try_from(i) with i the position in an array of LEVELS entries (assumption LEVELS < 2^32)"
+    if p.kind.startswith("overflow:Mul") and e and enum_index(e) and any(fld(x, m.f_tick) for x in walk(e) if x[0] == "field"):
+        return "i * tick_size with i < LEVELS (assumption LEVELS * tick_size < 2^32)"
     if p.kind.startswith("overflow:Mul") and in_closure and e and any(x[0] == "param" and x[1] == 2 for x in walk(e)) and any(fld(x, m.f_tick) for x in walk(e) if x[0] == "field"):
         return "i * tick_size with i < LEVELS (assumption LEVELS * tick_size < 2^32)"
     if p.kind in ("index", "bounds") and e:
